@@ -289,6 +289,35 @@ func suiteC14(s *Suite, rng *Rng, tier string) {
 				}
 				break
 			}
+			// an exchange that is consistent in itself (the committed hash is the hash of the second message) but names a key the
+			// server does not know: by name, or a key of the list in which the server does not take part
+			for i := range respReq.UserChallengeInput {
+				if respReq.UserChallengeInput[i].KeyID == nil {
+					continue
+				}
+				r = cpReq()
+				unk := "unknown-issuer"
+				r.UserChallengeInput[i].KeyID = &unk
+				hh, _ := gabi.VerifKeyshareHash(r.UserChallengeInput)
+				call("unknown-key-in-both-messages", hh, r, true)
+				break
+			}
+			for i := range respReq.UserChallengeInput {
+				if respReq.UserChallengeInput[i].KeyID != nil {
+					continue
+				}
+				for _, k := range keys {
+					if part[kidOf[k.Pk]] == nil {
+						r = cpReq()
+						name := kidOf[k.Pk]
+						r.UserChallengeInput[i].KeyID = &name
+						hh, _ := gabi.VerifKeyshareHash(r.UserChallengeInput)
+						call("non-participating-key-named-in-both-messages", hh, r, true)
+						break
+					}
+				}
+				break
+			}
 			// a different committed hash
 			h2 := append([]byte{}, commReq.HashedUserCommitments...)
 			h2[7] ^= 0x10
